@@ -94,7 +94,7 @@ for p in props:
             "C09": " Added later: the unwrap rows of the degenerate-payload / big-count grid (counts such as 2^32 + 1 with two real owners).",
             "C02": " Added later: the same races with 18 / 40 extra owners held by the main thread (count-dependent paths).",
             "C10": " Added later: header + zero-sized-element slices with isize::MAX-1 .. usize::MAX elements converted between fat and thin.",
-            "C14": " Added later: recorded lengths at isize::MAX, 2^63 and usize::MAX.",
+            "C14": " Added later: recorded lengths at isize::MAX, 2^63 and usize::MAX; provided Ord/Hash methods through handles; zero-sized scalars ((), a unit struct with its own Debug/Hash/order, a unit struct equal to nothing) through every handle kind.",
             "C15": " Added later: zero-sized headers and elements that have destructors.",
             "C16": " Added later: clone_from entry points (direct, Vec, Option); every over-limit cell also with standard error unwritable and closed.",
             "C17": " Added later: every grid also with a (de)serializer whose is_human_readable() is false; panicking callbacks; loom exploration of deserialize_in_place against concurrent readers and releasers; zero-sized payloads ((), PhantomData, [u8;0], ((),()), a hand-written unit struct) and a payload size ladder [u64;1..32] (8..256 bytes) in the serialize, deserialize and in-place grids.",
